@@ -32,16 +32,16 @@ impl Subject for BufSubject {
     /// (capacity, initially closed)
     type Cfg = (usize, bool);
     fn fresh(cfg: &(usize, bool)) -> Self {
-        // Capacity 16 stands for the default constructors.
+        // Capacity 0 stands for the default constructors (documented default capacity).
         let buf = match (cfg.0, cfg.1) {
-            (16, false) => EventBuffer::new(),
-            (16, true) => EventBuffer::new_closed(),
+            (0, false) => EventBuffer::new(),
+            (0, true) => EventBuffer::new_closed(),
             (c, true) => EventBuffer::with_capacity_closed(c),
             (c, false) => EventBuffer::with_capacity(c),
         };
         let w1 = buf.writer();
         let w2 = w1.clone();
-        BufSubject { buf, w1, w2, cap: cfg.0, model: VecDeque::new(), open: !cfg.1, n: 0 }
+        BufSubject { buf, w1, w2, cap: if cfg.0 == 0 { EventBuffer::<u32>::DEFAULT_CAPACITY } else { cfg.0 }, model: VecDeque::new(), open: !cfg.1, n: 0 }
     }
     fn ops(&self) -> Vec<SinkOp> {
         vec![SinkOp::Write1, SinkOp::Write2, SinkOp::Next, SinkOp::Drain, SinkOp::Open, SinkOp::Close]
@@ -167,7 +167,7 @@ impl Subject for SlotSubject {
 }
 
 pub fn check(depth: usize) -> Vec<Outcome> {
-    let cfgs: Vec<(usize, bool)> = vec![(1, false), (2, false), (3, false), (1, true), (2, true), (16, false), (16, true)];
+    let cfgs: Vec<(usize, bool)> = vec![(1, false), (2, false), (3, false), (1, true), (2, true), (0, false), (0, true)];
     vec![
         explore::<BufSubject>("event_buffer", &cfgs, depth),
         explore::<SlotSubject>("event_slot", &[false, true], depth + 1),
